@@ -270,7 +270,7 @@ def report_build_problems(ck, items, pid):
 
 # ------------------------------------------------------------------ C01 / C02 (tree properties)
 
-def tree_check(work, pid, oracle, level_text, gen_opts=None, need=None, cases_fn=None, with_k1=True, n_quick=(40, 40), n_thorough=(600, 120), maxlen=30, prefilter=None, with_repo=False):
+def tree_check(work, pid, oracle, level_text, gen_opts=None, need=None, cases_fn=None, with_k1=True, n_quick=(40, 40), n_thorough=(600, 120), maxlen=30, prefilter=None, with_repo=False, k2_on_items=False):
     ck = lv.Check(pid, level_for(pid))
     quick = ck.tier == 'quick'
     st = proof_step(ck, pid)
@@ -302,6 +302,30 @@ def tree_check(work, pid, oracle, level_text, gen_opts=None, need=None, cases_fn
         run_items = [it for it in run_items if prefilter(it)]
     k3.run_all(run_items, (lambda it: cases_fn(ck, it, n_in)) if cases_fn else (lambda it: std_cases(ck, it, n_in, maxlen=maxlen)))
     probs = report_build_problems(ck, all_items + citems, pid)
+    # optionally the analysis tie (K2) on the very grammars whose parsers are run: recursion classes, binding powers, sets
+    k2dis = []
+    k2n = 0
+    if k2_on_items:
+        import k2
+        todo = []
+        for it in run_items:
+            d = it['res'].get('dump')
+            if not d or not d['sema']['sets']:
+                continue
+            try:
+                if k2.count_nodes(d) <= k2.MAX_NODES:
+                    sx, ids = k2.grammar_sexp(d)
+                    todo.append((it, sx, ids))
+            except k2.Unresolved:
+                pass
+        k2n = len(todo)
+        for (it, sx, ids), m in zip(todo, k2.run_model([x[1] for x in todo]) if todo else []):
+            if m['r'] != 'ok':
+                k2dis.append({'grammar': it['text'], 'what': 'model result ' + m['r']})
+                continue
+            df = k2.compare(it['res']['dump'], it['res']['diags'], m, ids)
+            if df:
+                k2dis.append({'grammar': it['text'], 'what': df[0]})
 
     kf = known.Known(pid)
     evals = 0
@@ -363,6 +387,8 @@ def tree_check(work, pid, oracle, level_text, gen_opts=None, need=None, cases_fn
             broken.append('K3 correspondence (Exec.v on the translated program vs the compiled parser): %d cases disagree; first: %s' % (len(disagreements), json.dumps(disagreements[0])[:1500]))
         if probs:
             broken.append('tie: %d emitted parsers could not be translated/compiled; first: %s: %s' % (len(probs), probs[0][0], probs[0][1]))
+        if k2dis:
+            broken.append('K2 correspondence (Sema.v vs SemanticPass) on the grammars of this run: %d disagree; first: %s' % (len(k2dis), json.dumps(k2dis[0])[:1200]))
         if broken:
             ck.violation('; '.join(broken)[:3000], {'broken': broken, 'k1': k1dis[:3], 'k3': disagreements[:3],
                                                    'build_problems': [(a, b, c) for a, b, c in probs[:3]]}, no_input=True)
@@ -383,6 +409,7 @@ def tree_check(work, pid, oracle, level_text, gen_opts=None, need=None, cases_fn
         'trusted_base': lv.TRUSTED_BASE,
         'theorems': st['theorems'],
         'explanation': level_text,
+        'k2_grammars': k2n, 'k2_disagreements': len(k2dis),
         'repo_grammars': [it['repo_file'] for it in ritems if 'pb' in it and it['pb'].rustc_ok],
         'frontend_parser_token_diff_vs_regenerated': next((it.get('token_diff') for it in ritems if 'token_diff' in it), None),
         'programs': len(run_items), 'evaluations': evals + len(hs), 'distinct_nontrivial': len(distinct) + k1stats['valid_complete'],
@@ -674,7 +701,7 @@ def check_C06(work, args):
 def check_C07(work, args):
     tree_check(work, 'C07', oracles.oracle_c07,
                'precedence and associativity: K2/K3 correspondence + definitional precedence-consistency oracle + reference precedence tree',
-               gen_opts=dict(pratt=1.0, nrules=(2, 4), choice=0.05, marker=0.05, elide=0.05, ret=0.0), with_k1=False, maxlen=24, with_repo=True,
+               gen_opts=dict(pratt=1.0, nrules=(2, 4), choice=0.05, marker=0.05, elide=0.05, ret=0.0), with_k1=False, maxlen=24, with_repo=True, k2_on_items=True,
                need=lambda g: 'pratt' in g.features)
 
 
